@@ -5,6 +5,9 @@ From RB Require Import Base.Val Model.Rib Spec.BestPath Spec.RibSpec
 Import ListNotations.
 Open Scope N_scope.
 
+
+
+
 (* ------------------------------------------------------------ list helpers *)
 
 Definition hpl (p : entry -> bool) (l : list entry) : N := if existsb p l then 1 else 0.
@@ -111,6 +114,36 @@ Hypothesis Hmx : mx c < 4294967296.
 Definition K (t : table) (started : bool) : Prop :=
   ctr_of t c = sc c t /\ sc c t <= mx c /\ (started = false -> sc c t = 0).
 
+
+(* no path of the peer in these entries belongs to another session in a way that
+   involves session c *)
+Definition NFc (tok addr : N) (es : list entry) : Prop :=
+  forall e, In e es -> from_addr addr e = true ->
+            if tok =? c then from_tok c e = true else from_tok c e = false.
+
+Lemma foreign_in_false tok addr es : foreign_in tok addr c es = false -> NFc tok addr es.
+Proof.
+  intros H e He Ha. unfold foreign_in in H.
+  assert (Hx : (from_addr addr e && negb (from_tok tok e) && ((tok =? c) || from_tok c e)) = false).
+  { destruct (from_addr addr e && negb (from_tok tok e) && ((tok =? c) || from_tok c e)) eqn:E; [|reflexivity].
+    assert (existsb (fun e => from_addr addr e && negb (from_tok tok e) && ((tok =? c) || from_tok c e)) es = true); [|congruence].
+    apply existsb_exists. exists e. split; assumption. }
+  rewrite Ha in Hx. cbn [andb] in Hx. destruct (tok =? c) eqn:Etc.
+  - apply N.eqb_eq in Etc. subst tok. cbn [orb] in Hx. rewrite andb_true_r in Hx. apply negb_false_iff in Hx. exact Hx.
+  - cbn [orb] in Hx. destruct (from_tok c e) eqn:Ec; [|reflexivity].
+    rewrite andb_true_r in Hx. apply negb_false_iff in Hx. unfold from_tok in Hx, Ec.
+    apply N.eqb_eq in Hx, Ec. apply N.eqb_neq in Etc. congruence.
+Qed.
+
+Lemma entries_of_in t net d : NoDup (map fst (t_dests t)) -> In (net, d) (t_dests t) -> entries_of t net = d_entries d.
+Proof. intros Hk Hin. unfold entries_of. rewrite (in_alookup _ _ _ Hk Hin). reflexivity. Qed.
+
+Lemma NFc_own tok addr es e : tok = c -> NFc tok addr es -> In e es -> from_addr addr e = true -> from_tok c e = true.
+Proof. intros -> H He Ha. specialize (H e He Ha). rewrite N.eqb_refl in H. exact H. Qed.
+
+Lemma NFc_other tok addr es e : tok <> c -> NFc tok addr es -> In e es -> from_addr addr e = true -> from_tok c e = false.
+Proof. intros Hn H He Ha. specialize (H e He Ha). apply N.eqb_neq in Hn. rewrite Hn in H. exact H. Qed.
+
 Lemma tok_addr t n d e :
   inv1 f t -> In (n, d) (t_dests t) -> In e (d_entries d) -> from_tok c e = true -> from_addr a e = true.
 Proof.
@@ -128,10 +161,17 @@ Qed.
 
 Lemma K_insert t s net rpid nh at' filt nhinv lim started :
   inv1 f t -> invE t -> s_addr s = f (s_tok s) -> lim = Some (mx (s_tok s), s_tok s) ->
-  (s_addr s = a -> NF (s_tok s) (s_addr s) t) ->
+  NFc (s_tok s) (s_addr s) (entries_of t net) ->
   K t started -> K (fst (insert t s net rpid nh at' filt nhinv lim)) (started || (s_tok s =? c)).
 Proof.
-  intros H1 He Hs -> Hnf (Hk1 & Hk2 & Hk3).
+  intros H1 He Hs -> Hnf0 (Hk1 & Hk2 & Hk3).
+  assert (Hkeys : NoDup (map fst (t_dests t))) by (destruct He; assumption).
+  assert (Hown : s_tok s = c -> forall d x, In (net, d) (t_dests t) -> In x (d_entries d) ->
+                                from_addr (s_addr s) x = true -> from_tok c x = true).
+  { intros E d x Hin Hx. apply (NFc_own _ _ _ x E Hnf0). rewrite (entries_of_in t net d Hkeys Hin). exact Hx. }
+  assert (Hoth : s_tok s <> c -> forall d x, In (net, d) (t_dests t) -> In x (d_entries d) ->
+                                 from_addr (s_addr s) x = true -> from_tok c x = false).
+  { intros E d x Hin Hx. apply (NFc_other _ _ _ x E Hnf0). rewrite (entries_of_in t net d Hkeys Hin). exact Hx. }
   set (tok := s_tok s) in *.
   unfold insert. cbv zeta.
   set (d0 := fst (ins_lookup t net)).
@@ -156,14 +196,14 @@ Proof.
   - (* the session's own insert *)
     apply N.eqb_eq in Etc. rewrite orb_true_r.
     assert (Ha : s_addr s = a) by (unfold a; rewrite <- Etc; exact Hs).
-    specialize (Hnf Ha). rewrite Ha in Hnf.
+    pose proof (Hown Etc) as Hnf. rewrite Ha in Hnf.
     assert (Hex : existsb (from_addr a) es0 = existsb (from_tok c) es0).
     { assert (E : hpl (from_addr a) es0 = hpl (from_tok c) es0).
       { apply hpl_ext. intros x Hx. destruct (ins_lookup_in t net x Hx) as (d & Hin & Hxd).
         destruct (from_tok c x) eqn:Ec.
         - apply (tok_addr t net d x H1 Hin Hxd Ec).
         - destruct (from_addr a x) eqn:Eax; [|reflexivity].
-          pose proof (Hnf _ _ _ Hin Hxd Eax) as Ht. rewrite Etc in Ht. congruence. }
+          pose proof (Hnf _ _ Hin Hxd Eax) as Ht. congruence. }
       unfold hpl in E. destruct (existsb (from_addr a) es0), (existsb (from_tok c) es0); try reflexivity; discriminate. }
     assert (Hnew : hc c d0 = if ins_is_new s rpid d0 then 0 else 1).
     { rewrite is_new_spec, Ha. fold es0. rewrite Hex. unfold hc, hpl. fold es0.
@@ -194,7 +234,7 @@ Proof.
       pose proof (same_key_from _ _ _ Hq) as Hsx.
       assert (Ha : s_addr s = a).
       { unfold from_addr in Hax, Hsx. apply N.eqb_eq in Hax, Hsx. congruence. }
-      pose proof (Hnf Ha _ _ _ Hin Hxd Hsx) as Ht. unfold from_tok in Ht, Ec. apply N.eqb_eq in Ht, Ec. congruence. }
+      pose proof (Hoth Etc _ _ Hin Hxd Hsx) as Ht. congruence. }
     unfold sc in *. split; [lia|]. split; [lia|]. intro Hst. specialize (Hk3 Hst). lia.
 Qed.
 
@@ -207,16 +247,18 @@ Qed.
 
 Lemma K_remove t s net rpid ctr started :
   inv1 f t -> invE t -> s_addr s = f (s_tok s) -> ctr = Some (s_tok s) ->
-  (s_addr s = a -> NF (s_tok s) (s_addr s) t) ->
+  (forall d, alookup net (t_dests t) = Some d -> find (same_key s rpid) (d_entries d) <> None ->
+             NFc (s_tok s) (s_addr s) (d_entries d)) ->
   K t started -> K (fst (remove t s net rpid ctr)) (started || (s_tok s =? c)).
 Proof.
-  intros H1 [Hk Hok] Hs -> Hnf HK.
+  intros H1 [Hk Hok] Hs -> Hnf0 HK.
   set (tok := s_tok s) in *.
   unfold remove.
   destruct (alookup net (t_dests t)) as [d|] eqn:Hd; [|apply (K_keep t t); [reflexivity|reflexivity|exact HK]].
   destruct (find (same_key s rpid) (d_entries d)) as [removed|] eqn:Ef;
     [|apply (K_keep t t); [reflexivity|reflexivity|exact HK]].
   cbv zeta.
+  assert (Hnfd : NFc tok (s_addr s) (d_entries d)) by (apply (Hnf0 d eq_refl); rewrite Ef; discriminate).
   set (rest := remove_first (same_key s rpid) (d_entries d)).
   set (d' := with_entries d rest (d_next_pid d)).
   set (D' := match rest with [] => aremove net (t_dests t) | _ => aset net d' (t_dests t) end).
@@ -235,16 +277,17 @@ Proof.
     unfold rem_ctrs. destruct (tok =? c) eqn:Etc.
     - apply N.eqb_eq in Etc. rewrite orb_true_r.
       assert (Ha : s_addr s = a) by (unfold a; rewrite <- Etc; exact Hs).
-      specialize (Hnf Ha). rewrite Ha in *.
-      assert (Hrc : from_tok c removed = true).
-      { pose proof (Hnf _ _ _ Hin Hrin Hr0) as Ht. rewrite Etc in Ht. exact Ht. }
+      assert (Hnf : forall x, In x (d_entries d) -> from_addr a x = true -> from_tok c x = true).
+      { intros x Hx Hax. apply (NFc_own _ _ _ x Etc Hnfd Hx). rewrite Ha. exact Hax. }
+      rewrite Ha in *.
+      assert (Hrc : from_tok c removed = true) by (apply (Hnf _ Hrin Hr0)).
       assert (Hd1 : hc c d = 1) by (apply (hpl_one_in _ _ removed Hrin Hrc)).
       assert (Hst : hpl (from_tok c) rest = if still then 1 else 0).
       { unfold still. rewrite Ha. fold (hpl (from_addr a) rest). symmetry. apply hpl_ext. intros x Hx.
         apply remove_first_sub in Hx. destruct (from_tok c x) eqn:Ecx.
         - apply (tok_addr t net d x H1 Hin Hx Ecx).
         - destruct (from_addr a x) eqn:Eax; [|reflexivity].
-          pose proof (Hnf _ _ _ Hin Hx Eax) as Ht. rewrite Etc in Ht. congruence. }
+          pose proof (Hnf _ Hx Eax) as Ht. congruence. }
       rewrite Hd1, Hst in Hsum.
       assert (Hge : 1 <= sc c t) by (rewrite <- Hd1; apply (sumd_ge_in (hc c) _ net d Hin)).
       rewrite Etc. destruct still.
@@ -261,7 +304,7 @@ Proof.
         pose proof (tok_addr t net d removed H1 Hin Hrin Ecr) as Hax.
         assert (Ha : s_addr s = a).
         { unfold from_addr in Hax, Hr0. apply N.eqb_eq in Hax, Hr0. congruence. }
-        pose proof (Hnf Ha _ _ _ Hin Hrin Hr0) as Ht. unfold from_tok in Ht, Ecr. apply N.eqb_eq in Ht, Ecr. congruence. }
+        pose proof (NFc_other _ _ _ removed Etc Hnfd Hrin Hr0) as Ht. congruence. }
       assert (H2 : hpl (from_tok c) rest = hc c d) by (apply (hpl_remove_first_other _ _ _ removed Ef Hrc)).
       unfold sc in *. split; [lia|]. split; [lia|]. intro Hst. specialize (Hk3 Hst). lia. }
   fold rest d' still. unfold D' in Hfin. destruct rest as [|y ys]; cbn [fst]; apply Hfin; reflexivity.
@@ -306,7 +349,8 @@ Qed.
 
 (* the session's own purge: the counter goes down once per prefix it loses *)
 Lemma cdec_count t k addr ds :
-  (forall n d e, In (n, d) ds -> In e (d_entries d) -> from_addr addr e = from_tok c e) ->
+  (forall n d e, In (n, d) ds -> existsb (drop_sel (t_flags t) k addr) (d_entries d) = true ->
+                 In e (d_entries d) -> from_addr addr e = from_tok c e) ->
   N.of_nat (cdec_of t k addr ds) + sumN (fun nd => gopt (hc c) (dg t k addr (fst nd) (snd nd))) ds
   = sumd (hc c) ds.
 Proof.
@@ -315,18 +359,19 @@ Proof.
   unfold sumd in *. cbn [map filter sumN fst snd].
   destruct (dpart_cases t k addr n d) as [(_ & Eg & Ep)|(Hex & Ep & Eg)]; cbv zeta in *; rewrite Ep; cbn [fst snd].
   - rewrite Eg. cbn [gopt]. lia.
-  - set (sel := drop_sel (t_flags t) k addr) in *.
+  - pose proof Hex as Hex1.
+    set (sel := drop_sel (t_flags t) k addr) in *.
     set (rest := filter (fun e => negb (sel e)) (d_entries d)) in *.
     assert (Hd1 : hc c d = 1).
-    { apply existsb_exists in Hex as (x & Hx & Sx). apply (hpl_one_in _ _ x Hx).
-      rewrite <- (H n d x (or_introl eq_refl) Hx). apply (drop_sel_from _ _ _ _ Sx). }
+    { pose proof Hex as Hex0. apply existsb_exists in Hex as (x & Hx & Sx). apply (hpl_one_in _ _ x Hx).
+      rewrite <- (H n d x (or_introl eq_refl) Hex0 Hx). apply (drop_sel_from _ _ _ _ Sx). }
     assert (Hrest : hpl (from_tok c) rest = if existsb (from_addr addr) rest then 1 else 0).
     { fold (hpl (from_addr addr) rest). symmetry. apply hpl_ext. intros x Hx. apply filter_In in Hx as [Hx _].
-      apply (H n d x (or_introl eq_refl) Hx). }
+      apply (H n d x (or_introl eq_refl) Hex1 Hx). }
     rewrite (Eg (hc c) eq_refl). unfold hc at 1. cbn [d_entries with_entries]. rewrite Hrest, Hd1.
     destruct (filter sel (d_entries d)) as [|g0 gs] eqn:Eg0.
     + exfalso. apply existsb_exists in Hex as (x & Hx & Sx).
-      assert (In x (filter sel (d_entries d))) by (apply filter_In; split; assumption). rewrite Eg0 in H0. destruct H0.
+      assert (Hxx : In x (filter sel (d_entries d))) by (apply filter_In; split; assumption). rewrite Eg0 in Hxx. destruct Hxx.
     + destruct (existsb (from_addr addr) rest); cbn [negb length]; lia.
 Qed.
 
@@ -358,7 +403,9 @@ Proof.
 Qed.
 
 Lemma K_drop_kind t k addr c' started :
-  inv1 f t -> k <> DKAll -> f c' = addr -> (addr = a -> NF c' addr t) ->
+  inv1 f t -> k <> DKAll -> f c' = addr ->
+  (forall n d, In (n, d) (t_dests t) -> existsb (drop_sel (t_flags t) k addr) (d_entries d) = true ->
+               NFc c' addr (d_entries d)) ->
   K t started -> K (fst (drop_op t k addr (Some c'))) (started || (c' =? c)).
 Proof.
   intros H1 Hk Hfc Hnf HK.
@@ -367,12 +414,14 @@ Proof.
   { rewrite drop_op_ctrs. destruct k; [contradiction| | |]; reflexivity. }
   destruct (c' =? c) eqn:Ecc.
   - (* the session's own purge *)
-    apply N.eqb_eq in Ecc. subst c'. rewrite orb_true_r. fold a in Hfc. specialize (Hnf (eq_sym Hfc)).
+    apply N.eqb_eq in Ecc. subst c'. rewrite orb_true_r. fold a in Hfc.
     destruct HK as (Hk1 & Hk2 & Hk3).
-    assert (Hsame : forall n d e, In (n, d) (t_dests t) -> In e (d_entries d) -> from_addr addr e = from_tok c e).
-    { intros n d e Hin He. destruct (from_tok c e) eqn:Ec.
+    assert (Hsame : forall n d e, In (n, d) (t_dests t) -> existsb (drop_sel (t_flags t) k addr) (d_entries d) = true ->
+                                  In e (d_entries d) -> from_addr addr e = from_tok c e).
+    { intros n d e Hin Hsel He. destruct (from_tok c e) eqn:Ec.
       - rewrite <- Hfc. apply (tok_addr t n d e H1 Hin He Ec).
-      - destruct (from_addr addr e) eqn:Ea; [|reflexivity]. pose proof (Hnf _ _ _ Hin He Ea). congruence. }
+      - destruct (from_addr addr e) eqn:Ea; [|reflexivity].
+        pose proof (NFc_own _ _ _ e eq_refl (Hnf n d Hin Hsel) He Ea). congruence. }
     pose proof (cdec_count t k addr (t_dests t) Hsame) as Hc. rewrite <- (sc_drop t k addr (Some c)) in Hc.
     fold (sc c t) in Hc.
     unfold K, ctr_of. rewrite Ectr. fold (ctrl (aset c (iter_n (cdec_of t k addr (t_dests t)) wrap_dec (ctr_of t c)) (t_ctrs t)) c).
@@ -383,8 +432,9 @@ Proof.
       rewrite ctrl_aset. assert (E : (c =? c') = false) by (apply N.eqb_neq; congruence). rewrite E. reflexivity.
     + apply sc_drop_untouched. intros n d e Hin He Hs. destruct (from_tok c e) eqn:Ec; [|reflexivity]. exfalso.
       pose proof (tok_addr t n d e H1 Hin He Ec) as Ha. pose proof (drop_sel_from _ _ _ _ Hs) as Hb.
-      assert (Haa : addr = a) by (unfold from_addr in Ha, Hb; apply N.eqb_eq in Ha, Hb; congruence).
-      pose proof (Hnf Haa _ _ _ Hin He Hb) as Ht. unfold from_tok in Ht, Ec. apply N.eqb_eq in Ht, Ec. congruence.
+      assert (Hsel : existsb (drop_sel (t_flags t) k addr) (d_entries d) = true)
+        by (apply existsb_exists; exists e; split; assumption).
+      pose proof (NFc_other _ _ _ e Ecc (Hnf n d Hin Hsel) He Hb) as Ht. congruence.
 Qed.
 
 (* ---- operations that remove nothing *)
@@ -423,24 +473,24 @@ Proof. rewrite orb_false_r. exact (fun H => H). Qed.
 
 Lemma K_run ops : forall t started,
   inv1 f t -> invE t -> Forall (op_wf f) ops -> Forall (ctr_disciplined f mx) ops ->
-  session_alive a c started ops = true -> known_two_sessions_from a t ops = false ->
+  session_alive a c started ops = true -> known_touch_from c t ops = false ->
   K t started -> exists st', K (run t ops) st'.
 Proof.
   induction ops as [|o r IH]; intros t started H1 He Hw Hd Hal Hkn HK; [exists started; exact HK|].
   apply Forall_cons_iff in Hw as [Hwo Hwr]. apply Forall_cons_iff in Hd as [Hdo Hdr].
-  cbn [known_two_sessions_from] in Hkn. apply orb_false_iff in Hkn as [Hnow Hkn].
+  cbn [known_touch_from] in Hkn. apply orb_false_iff in Hkn as [Hnow Hkn].
   change (run t (o :: r)) with (run (fst (fst (step t o))) r).
   pose proof (inv1_step f t o H1 Hwo) as H1'. pose proof (invE_step t o He) as He'.
   destruct o as [s net rpid nh at' filt nhinv lim|s net rpid ctr|k addr ctr|llgr addr|nh rr| |].
-  - cbn [ctr_disciplined] in Hdo. destruct Hdo as [Hl Hs]. cbn [acting] in Hnow. cbn [session_alive mentions] in Hal.
-    assert (Hnf : s_addr s = a -> NF (s_tok s) (s_addr s) t).
-    { intro Ha. apply foreign_false. rewrite Ha, N.eqb_refl in Hnow. rewrite <- Ha in Hnow at 1. exact Hnow. }
-    pose proof (K_insert t s net rpid nh at' filt nhinv lim started H1 He Hs Hl Hnf HK) as HK'.
+  - cbn [ctr_disciplined] in Hdo. destruct Hdo as [Hl Hs]. cbn [touch_event] in Hnow. cbn [session_alive mentions] in Hal.
+    pose proof (K_insert t s net rpid nh at' filt nhinv lim started H1 He Hs Hl (foreign_in_false _ _ _ Hnow) HK) as HK'.
     apply (IH _ _ H1' He' Hwr Hdr Hal Hkn). cbn [step].
     destruct (insert t s net rpid nh at' filt nhinv lim) as [t' [| |c0]]; exact HK'.
-  - cbn [ctr_disciplined] in Hdo. destruct Hdo as [Hl Hs]. cbn [acting] in Hnow. cbn [session_alive mentions] in Hal.
-    assert (Hnf : s_addr s = a -> NF (s_tok s) (s_addr s) t).
-    { intro Ha. apply foreign_false. rewrite Ha, N.eqb_refl in Hnow. rewrite <- Ha in Hnow at 1. exact Hnow. }
+  - cbn [ctr_disciplined] in Hdo. destruct Hdo as [Hl Hs]. cbn [touch_event] in Hnow. cbn [session_alive mentions] in Hal.
+    assert (Hnf : forall d, alookup net (t_dests t) = Some d -> find (same_key s rpid) (d_entries d) <> None ->
+                            NFc (s_tok s) (s_addr s) (d_entries d)).
+    { intros d Hd Hf. unfold entries_of in Hnow. rewrite Hd in Hnow.
+      destruct (find (same_key s rpid) (d_entries d)); [|contradiction]. apply foreign_in_false, Hnow. }
     pose proof (K_remove t s net rpid ctr started H1 He Hs Hl Hnf HK) as HK'.
     apply (IH _ _ H1' He' Hwr Hdr Hal Hkn). cbn [step].
     destruct (remove t s net rpid ctr) as [t' [c0|]]; exact HK'.
@@ -454,9 +504,17 @@ Proof.
       destruct (drop_op t DKAll addr ctr) as [t' cs]. exact HK'.
     + assert (Hk : k <> DKAll) by (intros ->; discriminate).
       assert (Hex : exists c', ctr = Some c' /\ f c' = addr) by (destruct k; [discriminate| | |]; exact Hdo).
-      destruct Hex as (c' & -> & Hfc). cbn [acting] in Hnow.
-      assert (Hnf : addr = a -> NF c' addr t).
-      { intro Ha. apply foreign_false. rewrite Ha, N.eqb_refl in Hnow. rewrite <- Ha in Hnow at 1. exact Hnow. }
+      destruct Hex as (c' & -> & Hfc).
+      assert (Hnf : forall n d, In (n, d) (t_dests t) -> existsb (drop_sel (t_flags t) k addr) (d_entries d) = true ->
+                                NFc c' addr (d_entries d)).
+      { intros n d Hin Hsel. apply foreign_in_false.
+        assert (Hev : existsb (fun nd => existsb (drop_sel (t_flags t) k addr) (d_entries (snd nd))
+                                         && foreign_in c' addr c (d_entries (snd nd))) (t_dests t) = false)
+          by (destruct k; [discriminate| | |]; exact Hnow).
+        destruct (foreign_in c' addr c (d_entries d)) eqn:Ef; [|reflexivity].
+        assert (existsb (fun nd => existsb (drop_sel (t_flags t) k addr) (d_entries (snd nd))
+                                   && foreign_in c' addr c (d_entries (snd nd))) (t_dests t) = true); [|congruence].
+        apply existsb_exists. exists (n, d). split; [exact Hin|]. cbn [snd]. rewrite Hsel, Ef. reflexivity. }
       pose proof (K_drop_kind t k addr c' started H1 Hk Hfc Hnf HK) as HK'.
       assert (Hal' : session_alive a c (started || (c' =? c)) r = true) by (destruct k; [discriminate| | |]; exact Hal).
       apply (IH _ _ H1' He' Hwr Hdr Hal' Hkn). cbn [step].
@@ -481,13 +539,13 @@ Lemma C15_limit_respected_outside_known :
   forall f mx shard ops c,
     Forall (op_wf f) ops -> Forall (ctr_disciplined f mx) ops -> mx c < 4294967296 ->
     session_alive (f c) c false ops = true ->
-    ~ Known_C15_two_sessions (f c) shard ops ->
+    ~ Known_C15_session_touch c shard ops ->
     let t := run (empty_table shard) ops in
     ctr_of t c = sess_recount t c /\ sess_recount t c <= mx c.
 Proof.
   intros f mx shard ops c Hw Hd Hmx Hal Hkn t.
-  assert (Hk : known_two_sessions_from (f c) (empty_table shard) ops = false).
-  { unfold Known_C15_two_sessions in Hkn. destruct (known_two_sessions_from (f c) (empty_table shard) ops); [exfalso; apply Hkn; reflexivity|reflexivity]. }
+  assert (Hk : known_touch_from c (empty_table shard) ops = false).
+  { unfold Known_C15_session_touch in Hkn. destruct (known_touch_from c (empty_table shard) ops); [exfalso; apply Hkn; reflexivity|reflexivity]. }
   assert (HK0 : K mx c (empty_table shard) false).
   { unfold K, sc, ctr_of. cbn. repeat split; try reflexivity. apply N.le_0_l. }
   destruct (K_run f mx c Hmx ops _ _ (inv1_empty f shard) (invE_empty shard) Hw Hd Hal Hk HK0) as (st' & H1 & H2 & _).
@@ -524,13 +582,13 @@ Definition exl_f (tok : N) : N := if tok =? 12 then 2 else tok.
 
 Example exl_hyps :
   Forall (op_wf exl_f) exl_ops /\ Forall (ctr_disciplined exl_f (fun _ => 2)) exl_ops
-  /\ session_alive (exl_f 1) 1 false exl_ops = true /\ ~ Known_C15_two_sessions (exl_f 1) 0 exl_ops
-  /\ session_alive (exl_f 12) 12 false exl_ops = true /\ ~ Known_C15_two_sessions (exl_f 12) 0 exl_ops.
+  /\ session_alive (exl_f 1) 1 false exl_ops = true /\ ~ Known_C15_session_touch 1 0 exl_ops
+  /\ session_alive (exl_f 12) 12 false exl_ops = true /\ ~ Known_C15_session_touch 12 0 exl_ops.
 Proof.
   split; [repeat constructor|]. split.
   - repeat constructor; cbn; try (eexists; split; reflexivity).
-  - split; [reflexivity|]. split; [unfold Known_C15_two_sessions; vm_compute; discriminate|].
-    split; [reflexivity|]. unfold Known_C15_two_sessions. vm_compute. discriminate.
+  - split; [reflexivity|]. split; [unfold Known_C15_session_touch; vm_compute; discriminate|].
+    split; [reflexivity|]. unfold Known_C15_session_touch. vm_compute. discriminate.
 Qed.
 
 (* the third new prefix of session 1 was rejected; the session holds two
@@ -555,4 +613,104 @@ Proof.
   apply find_some in Ef as [Hin Hk]. apply alookup_in in Hd.
   pose proof (sumd_ge_in (hr (s_addr s)) _ net d Hd) as Hge. fold (cr (s_addr s) t) in Hge.
   assert (hr (s_addr s) d = 1) by (apply (hrl_one_in _ _ removed Hin), (same_key_from _ _ _ Hk)). lia.
+Qed.
+
+(* ---- the class of the open finding was narrowed: the new class is inside the old one *)
+
+Lemma foreign_in_entry tok addr c es :
+  foreign_in tok addr c es = true ->
+  exists e, In e es /\ from_addr addr e = true /\ from_tok tok e = false /\ (tok = c \/ from_tok c e = true).
+Proof.
+  unfold foreign_in. intro H. apply existsb_exists in H as (e & He & H).
+  apply andb_true_iff in H as [H Hc]. apply andb_true_iff in H as [Ha Ht]. apply negb_true_iff in Ht.
+  exists e. split; [exact He|]. split; [exact Ha|]. split; [exact Ht|].
+  apply orb_true_iff in Hc as [Hc|Hc]; [left; apply N.eqb_eq, Hc|right; exact Hc].
+Qed.
+
+Lemma foreign_entry_intro tok addr t n d e :
+  In (n, d) (t_dests t) -> In e (d_entries d) -> from_addr addr e = true -> from_tok tok e = false ->
+  foreign_entry tok addr t = true.
+Proof.
+  intros Hin He Ha Ht. unfold foreign_entry. apply existsb_exists. exists e. split.
+  - unfold all_entries. apply in_flat_map. exists (n, d). split; assumption.
+  - rewrite Ha, Ht. reflexivity.
+Qed.
+
+Lemma touch_in_two_sessions f mx c ops : forall t,
+  inv1 f t -> Forall (op_wf f) ops -> Forall (ctr_disciplined f mx) ops ->
+  known_touch_from c t ops = true -> known_two_sessions_from (f c) t ops = true.
+Proof.
+  induction ops as [|o r IH]; intros t H1 Hw Hd Hk; [discriminate|].
+  apply Forall_cons_iff in Hw as [Hwo Hwr]. apply Forall_cons_iff in Hd as [Hdo Hdr].
+  cbn [known_touch_from known_two_sessions_from] in *. apply orb_true_iff in Hk as [Hk|Hk];
+    [|apply orb_true_iff; right; apply (IH _ (inv1_step f t o H1 Hwo) Hwr Hdr Hk)].
+  apply orb_true_iff. left.
+  assert (Hgen : forall tok addr n d, f tok = addr -> In (n, d) (t_dests t) ->
+                   foreign_in tok addr c (d_entries d) = true ->
+                   (addr =? f c) && foreign_entry tok addr t = true).
+  { intros tok addr n d Hf Hin Hfi. destruct (foreign_in_entry _ _ _ _ Hfi) as (e & He & Ha & Ht & Hc).
+    apply andb_true_iff. split; [|apply (foreign_entry_intro tok addr t n d e Hin He Ha Ht)].
+    apply N.eqb_eq. destruct Hc as [->|Hc]; [symmetry; exact Hf|].
+    destruct H1 as [_ _ Htok]. pose proof (Htok _ _ _ Hin He) as W. unfold wf_entry in W.
+    unfold from_addr in Ha. unfold from_tok in Hc. apply N.eqb_eq in Ha, Hc. congruence. }
+  destruct o as [s net rpid nh a filt nhinv lim|s net rpid ctr|k addr ctr|llgr addr|nh rr| |];
+    cbn [touch_event acting] in *; try discriminate.
+  - cbn [ctr_disciplined] in Hdo. destruct Hdo as [_ Hs]. unfold entries_of in Hk.
+    destruct (alookup net (t_dests t)) as [d|] eqn:Hd; [|discriminate].
+    apply (Hgen _ _ net d (eq_sym Hs) (alookup_in _ _ _ Hd) Hk).
+  - cbn [ctr_disciplined] in Hdo. destruct Hdo as [_ Hs]. unfold entries_of in Hk.
+    destruct (alookup net (t_dests t)) as [d|] eqn:Hd; [|discriminate].
+    destruct (find (same_key s rpid) (d_entries d)); [|discriminate].
+    apply (Hgen _ _ net d (eq_sym Hs) (alookup_in _ _ _ Hd) Hk).
+  - destruct k; [discriminate| | |]; cbn [ctr_disciplined] in Hdo; destruct Hdo as (c' & -> & Hfc);
+      apply existsb_exists in Hk as ([n d] & Hin & Hk); cbn [snd] in Hk; apply andb_true_iff in Hk as [_ Hk];
+      apply (Hgen _ _ n d Hfc Hin Hk).
+Qed.
+
+Lemma C15_known_class_narrowed :
+  forall f mx shard ops c,
+    Forall (op_wf f) ops -> Forall (ctr_disciplined f mx) ops ->
+    Known_C15_session_touch c shard ops -> Known_C15_two_sessions (f c) shard ops.
+Proof.
+  intros f mx shard ops c Hw Hd Hk. unfold Known_C15_session_touch, Known_C15_two_sessions in *.
+  apply (touch_in_two_sessions f mx c ops _ (inv1_empty f shard) Hw Hd Hk).
+Qed.
+
+(* ... strictly: a restarted session that announces a prefix the old session never
+   had is in the old class and not in the new one *)
+Definition narrow_ops : list op :=
+  [ Insert (ex_src 1 1 9 0) 1 0 (Some 1) kf_attr false false (Some (5, 1));
+    Restale false 1;
+    Insert (ex_src 11 1 9 0) 2 0 (Some 1) kf_attr false false (Some (5, 11));
+    Remove (ex_src 11 1 9 0) 2 0 (Some 11) ].
+
+Example C15_known_class_strictly_narrower :
+  Known_C15_two_sessions 1 0 narrow_ops /\ ~ Known_C15_session_touch 11 0 narrow_ops
+  /\ ~ Known_C15_session_touch 1 0 narrow_ops.
+Proof.
+  unfold Known_C15_two_sessions, Known_C15_session_touch. vm_compute.
+  split; [reflexivity|]. split; discriminate.
+Qed.
+
+(* PrefixLimitExceeded is signalled only when the session really holds its maximum *)
+Lemma C15_limit_signalled_only_when_full :
+  forall f mx shard ops c s net rpid nh a filt nhinv,
+    Forall (op_wf f) ops -> Forall (ctr_disciplined f mx) ops -> mx c < 4294967296 ->
+    session_alive (f c) c false ops = true ->
+    ~ Known_C15_session_touch c shard ops ->
+    let t := run (empty_table shard) ops in
+    s_tok s = c ->
+    snd (step t (Insert s net rpid nh a filt nhinv (Some (mx c, c)))) = true ->
+    sess_recount t c = mx c.
+Proof.
+  intros f mx shard ops c s net rpid nh a filt nhinv Hw Hd Hmx Hal Hkn t Hs Hlim.
+  destruct (C15_limit_respected_outside_known f mx shard ops c Hw Hd Hmx Hal Hkn) as [H1 H2]. fold t in H1, H2.
+  assert (Hge : mx c <= ctr_of t c).
+  { revert Hlim. cbn [step]. unfold insert. cbv zeta.
+    destruct (ins_over t (Some (mx c, c)) _) eqn:Ho.
+    - intros _. unfold ins_over in Ho. apply andb_true_iff in Ho as [_ Ho]. apply N.leb_le in Ho. exact Ho.
+    - destruct (ins_pid _ _ _) as [pn|]; [|cbn [snd]; intro H; discriminate H].
+      unfold ins_out. destruct (t_deferring t); [cbn [snd]; intro H; discriminate H|].
+      destruct (negb _ && _); cbn [snd]; intro H; discriminate H. }
+  lia.
 Qed.
